@@ -130,6 +130,37 @@ func genForest(p forestParams) *rapid.Generator[model.Forest] {
 	})
 }
 
+// genDeepForest draws a spine of 18..90 levels with side leaves and small side subtrees at drawn levels (recursion depth,
+// explicit-stack growth past 16/32/64 frames, long continuation prefixes).
+func genDeepForest(names *rapid.Generator[string], oneRoot bool) *rapid.Generator[model.Forest] {
+	return rapid.Custom(func(t *rapid.T) model.Forest {
+		depth := rapid.SampledFrom([]int{18, 20, 33, 34, 35, 40, 64, 66, 70, 90}).Draw(t, "spine")
+		root := &model.T{Name: names.Draw(t, "name")}
+		cur := root
+		for d := 2; d <= depth; d++ {
+			next := &model.T{Name: names.Draw(t, "name")}
+			switch rapid.IntRange(0, 5).Draw(t, "side") {
+			case 0: // a leaf before the spine child
+				cur.Kids = append(cur.Kids, &model.T{Name: names.Draw(t, "name")}, next)
+			case 1: // a leaf after it (the spine child is not last)
+				cur.Kids = append(cur.Kids, next, &model.T{Name: names.Draw(t, "name")})
+			case 2: // a small subtree after it
+				cur.Kids = append(cur.Kids, next, &model.T{Name: names.Draw(t, "name"), Kids: []*model.T{{Name: names.Draw(t, "name")}, {Name: names.Draw(t, "name")}}})
+			default:
+				cur.Kids = append(cur.Kids, next)
+			}
+			cur = next
+		}
+		// the deepest node has children of its own
+		cur.Kids = append(cur.Kids, &model.T{Name: names.Draw(t, "name")}, &model.T{Name: names.Draw(t, "name")})
+		f := model.Forest{root}
+		if !oneRoot && rapid.Bool().Draw(t, "second") {
+			f = append(f, &model.T{Name: names.Draw(t, "name"), Kids: []*model.T{{Name: names.Draw(t, "name")}}})
+		}
+		return f
+	})
+}
+
 // ---- spellings ------------------------------------------------------------------------------------------------------
 
 func genSpelling(headingOK bool) *rapid.Generator[model.Spelling] {
